@@ -171,10 +171,37 @@ def coqchk(prop_file, timeout=1500):
     return clean, axioms, summary
 
 
-def hygiene():
-    """no Admitted/admit/Axiom/... anywhere in the development"""
+def coq_deps(prop_file):
+    """transitive .v dependencies of a property file inside the development (from coqdep's .Makefile.d)"""
+    dpath = os.path.join(COQ, ".Makefile.d")
+    if not os.path.exists(dpath):
+        return None
+    deps = {}
+    for line in open(dpath):
+        if ":" not in line:
+            continue
+        lhs, rhs = line.split(":", 1)
+        tgt = [t for t in lhs.split() if t.endswith(".vo")]
+        if not tgt:
+            continue
+        deps[tgt[0]] = [t for t in rhs.split() if t.endswith(".vo") and not t.startswith("/")]
+    seen, todo = set(), [prop_file[:-2] + ".vo"]
+    while todo:
+        t = todo.pop()
+        if t in seen:
+            continue
+        seen.add(t)
+        todo += deps.get(t, [])
+    return sorted(t[:-1] for t in seen)
+
+
+def hygiene(prop_file=None):
+    """no Admitted/admit/Axiom/... in the development (restricted to what
+    `prop_file` depends on when given: other files may be work in progress of
+    another property and are covered by that property's own check)"""
     bad = []
-    for f in coq_files():
+    files = coq_deps(prop_file) if prop_file else None
+    for f in (files if files else coq_files()):
         p = os.path.join(COQ, f)
         if not os.path.exists(p):
             continue
